@@ -550,10 +550,42 @@ def refined(n, seed, radius):
     return Mesh(P, faces, {"family": "refined", "n": n, "seed": seed, "radius": radius}, True)
 
 
+# real meshes: the repository's sample files, decoded independently (uxmon/samplefiles.py); (format, file, n_face, closed)
+SAMPLE_MESHES = [
+    ("ugrid", "ugrid/quad-hexagon/grid.nc", 4, False),
+    ("ugrid", "ugrid/quad-hexagon/triangulated-grid.nc", 28, False),
+    ("mpas", "mpas/QU/mesh.QU.1920km.151026.nc", 162, True),
+    ("exodus", "exodus/mixed/mixed.exo", 254, False),
+    ("mpas_dual", "mpas/QU/mesh.QU.1920km.151026.nc", 320, True),
+    ("exodus", "exodus/outCSne8/outCSne8.g", 384, True),
+    ("ugrid", "ugrid/ov_RLL10deg_CSne4/ov_RLL10deg_CSne4.ug", 856, False),
+    ("ugrid", "ugrid/outCSne30/outCSne30.ug", 5400, True),
+    ("ugrid", "ugrid/fesom/fesom.mesh.diag.nc", 5839, False),
+]
+_SAMPLE_CACHE = {}
+
+
+def sample_mesh(fmt, rel):
+    from . import samplefiles
+
+    key = (fmt, rel)
+    if key not in _SAMPLE_CACHE:
+        m = samplefiles.decode(fmt, rel)
+        closed = [c for f_, r_, n_, c in SAMPLE_MESHES if (f_, r_) == key]
+        _SAMPLE_CACHE[key] = Mesh(m.xyz, m.faces, {"family": "sample", "format": fmt, "file": rel}, bool(closed and closed[0]))
+    return _SAMPLE_CACHE[key].copy()
+
+
 # --------------------------------------------------------------------------- catalogue
 def build(desc):
     """Rebuild a mesh from a descriptor (used by replay)."""
     fam = desc["family"]
+    if fam == "sample":
+        m = sample_mesh(desc["format"], desc["file"])
+        m.desc = {"family": "sample", "format": desc["format"], "file": desc["file"]}
+        for key, val in desc.get("ops", []):
+            m = apply_op(m, key, val)
+        return m
     if fam == "voronoi":
         m = voronoi(desc["n"], desc["seed"])
     elif fam == "delaunay":
@@ -603,7 +635,7 @@ def apply_op(m, key, val):
 
 
 DEFAULT_FAMILIES = ["voronoi", "delaunay", "merged", "polyhedron", "latlon_patch", "cubed_sphere", "latlon_global", "clustered", "bipyramid"]
-ALL_FAMILIES = DEFAULT_FAMILIES + ["fine_patch", "refined"]  # + high-resolution patches / locally refined closed meshes
+ALL_FAMILIES = DEFAULT_FAMILIES + ["fine_patch", "refined", "sample"]  # + high-resolution patches / locally refined closed meshes / real meshes from the sample files
 
 
 def random_mesh(rng, max_faces=200, allow_partial=True, families=None):
@@ -630,6 +662,16 @@ def random_mesh(rng, max_faces=200, allow_partial=True, families=None):
         d = {"family": fam, "k": int(rng.integers(3, 11)), "seed": seed}
     elif fam == "refined":
         d = {"family": fam, "n": int(rng.integers(14, max(15, max_faces // 2 + 2))), "seed": seed, "radius": float(rng.choice([1e-3, 1e-4, 2e-5, 1e-6]))}
+    elif fam == "sample":
+        import os
+
+        from . import samplefiles
+
+        ok = [(f_, r_) for f_, r_, n_, c_ in SAMPLE_MESHES if n_ <= 8 * max_faces and os.path.exists(os.path.join(samplefiles.root(), r_)) and os.path.getsize(os.path.join(samplefiles.root(), r_)) > 0]
+        if not ok:
+            return random_mesh(rng, max_faces, allow_partial, ["voronoi"])
+        f_, r_ = ok[int(rng.integers(0, len(ok)))]
+        d = {"family": fam, "format": f_, "file": r_}
     elif fam == "fine_patch":
         # a high-resolution regional patch: a closed mesh cut to a cap and contracted (see shrunk)
         src = random_mesh(rng, max_faces * 3, allow_partial=False, families=["voronoi", "delaunay", "merged", "cubed_sphere"])
